@@ -75,6 +75,16 @@ SparseFusedAxes ==
           IN /\ PlanGives(sh, subs, shape)                                    \* the way back (unfuse)
              /\ PlanGives(sh, subs, sh)                                       \* the identity
              /\ \A p \in 0..Len(sh) : PlanGives(sh, subs, Ins1(sh, p))        \* one unit axis inserted
+\* un-merging and inserting a new unit axis (anywhere) in one request
+BackwardWithInsert ==
+  (Forward.ok /\ PlanWellFormed(shape, None(shape), Plan(Forward)) /\ target # <<>>)
+     => LET ax == ApplyPlan(shape, None(shape), Plan(Forward))
+            subs == [i \in 1..Len(ax) |-> ax[i].sub]
+        IN \* (such a request may be refused - e.g. a unit axis in the middle of the pieces - but a returned plan must be right)
+           \A p \in 0..Len(shape) :
+              LET r == CalcReshapeArgs(target, Ins1(shape, p), subs) IN
+              r.ok => /\ PlanWellFormed(target, subs, Plan(r))
+                      /\ ShapeOfAxes(ApplyPlan(target, subs, Plan(r))) = Ins1(shape, p)
 \* the documented known finding is still there (if this fails the routine was repaired: update the findings)
 KnownF09 == AllUnitsToScalar => ~Forward.ok
 =============================================================================
